@@ -427,7 +427,7 @@ func genScript(t *rapid.T) *script {
 var rec = ev.New("c01/sync-rounds", "rapid state histories: configuration (impact factors incl. nextafter(1) and +Inf, cutoff 0..MaxInt64, interval 2 ns..24 h, timeout 0..interval/2, drift rate 1e-12..1 or unknown; ~1/3 deliberately inadmissible), 0..7 reference clocks, 0..7 peers, 1..8 rounds; per round and source an offset from an int64 mixture dense at the cutoff and both bounds and an outcome (in time, error, late, blocks until cancelled, exactly at the timeout). sync.Run is executed for real in a synctest bubble with a scripted clock and a recording discipline. Oracle: refusal iff inadmissible and before any actuation; exactly one correction then Sleep(interval) per round; |corr| <= factor*Drift(interval) per the statement; exact reference model (FTM, cutoff, clamps, midpoint) for rounds in which every source answered in time. One evaluation = one round (or one refused configuration). Non-trivial: a clamp engaged, the cutoff suppressed the peers, both kinds contributed, or a source failed/was late; distinct by hash of (configuration, round answers)")
 
 func TestPropSyncLoop(t *testing.T) {
-	vt.Check(t, 15000, 100000, func(t *rapid.T) {
+	vt.Check(t, 60000, 300000, func(t *rapid.T) {
 		s := genScript(t)
 		disarm := vt.Watchdog(t, 90*time.Second, s, "sync.Run did not reach the end of the scripted rounds")
 		msg, vs, _ := run(s)
